@@ -39,9 +39,12 @@ Inductive action :=
 | AWeak                            (* ShouldFailAtomicWeak() at the top of compare_exchange_weak *)
 | ALogCas                          (* the client reports the result of that compare_exchange_weak *)
 | AYield                           (* yaclib_std::this_thread::yield = Scheduler::RescheduleCurrent *)
-| ASleep (d : N)                   (* yaclib_std::this_thread::sleep_for(d): Scheduler::Sleep(now + d) *)
+| AEpoch                           (* the client stores steady_clock::now() in a shared variable (the epoch) *)
+| ASleep (ab : bool) (d : N)       (* this_thread::sleep_for(d) [ab = false] / sleep_until(epoch + d) [ab = true]:
+                                      Scheduler::Sleep(base + d) *)
 | APark (q : qid)                  (* FiberQueue::Wait(NoTimeoutTag) *)
-| ATimedPark (q : qid) (d : N)     (* FiberQueue::Wait(duration d): SleepPreemptive(now + d) *)
+| ATimedPark (q : qid) (ab : bool) (d : N)   (* FiberQueue::Wait(duration d) / Wait(time_point epoch + d):
+                                                SleepPreemptive(base + d) *)
 | ALogTimed                        (* the client reports the WaitStatus of that wait *)
 | ANotifyOne (q : qid)             (* FiberQueue::NotifyOne *)
 | ANotifyAll (q : qid)             (* FiberQueue::NotifyAll *)
@@ -93,7 +96,8 @@ Record st := {
   rc : nat;                              (* sRandCount: index of the next engine output *)
   inj : N;                               (* Injector::_count *)
   nsp : nat;                             (* number of fibers created so far (index into alloc) *)
-  crashed : bool                         (* the real code would have dereferenced null / end() or thrown here *)
+  crashed : bool;                        (* the real code would have dereferenced null / end() or thrown here *)
+  epoch : N                              (* a client variable: a time point the driver read from the clock *)
 }.
 
 (* What the recorder sees (harness/h_c17.cpp). *)
@@ -110,29 +114,31 @@ Inductive obs :=
 
 (* ------------------------------------------------------------------ field updates *)
 Definition set_now s v := {| now := v; runq := runq s; sleepm := sleepm s; waitq := waitq s; locked := locked s;
-  fibers := fibers s; slots := slots s; cur := cur s; rc := rc s; inj := inj s; nsp := nsp s; crashed := crashed s |}.
+  fibers := fibers s; slots := slots s; cur := cur s; rc := rc s; inj := inj s; nsp := nsp s; crashed := crashed s; epoch := epoch s |}.
 Definition set_runq s v := {| now := now s; runq := v; sleepm := sleepm s; waitq := waitq s; locked := locked s;
-  fibers := fibers s; slots := slots s; cur := cur s; rc := rc s; inj := inj s; nsp := nsp s; crashed := crashed s |}.
+  fibers := fibers s; slots := slots s; cur := cur s; rc := rc s; inj := inj s; nsp := nsp s; crashed := crashed s; epoch := epoch s |}.
 Definition set_sleepm s v := {| now := now s; runq := runq s; sleepm := v; waitq := waitq s; locked := locked s;
-  fibers := fibers s; slots := slots s; cur := cur s; rc := rc s; inj := inj s; nsp := nsp s; crashed := crashed s |}.
+  fibers := fibers s; slots := slots s; cur := cur s; rc := rc s; inj := inj s; nsp := nsp s; crashed := crashed s; epoch := epoch s |}.
 Definition set_waitq s v := {| now := now s; runq := runq s; sleepm := sleepm s; waitq := v; locked := locked s;
-  fibers := fibers s; slots := slots s; cur := cur s; rc := rc s; inj := inj s; nsp := nsp s; crashed := crashed s |}.
+  fibers := fibers s; slots := slots s; cur := cur s; rc := rc s; inj := inj s; nsp := nsp s; crashed := crashed s; epoch := epoch s |}.
 Definition set_locked s v := {| now := now s; runq := runq s; sleepm := sleepm s; waitq := waitq s; locked := v;
-  fibers := fibers s; slots := slots s; cur := cur s; rc := rc s; inj := inj s; nsp := nsp s; crashed := crashed s |}.
+  fibers := fibers s; slots := slots s; cur := cur s; rc := rc s; inj := inj s; nsp := nsp s; crashed := crashed s; epoch := epoch s |}.
 Definition set_fibers s v := {| now := now s; runq := runq s; sleepm := sleepm s; waitq := waitq s; locked := locked s;
-  fibers := v; slots := slots s; cur := cur s; rc := rc s; inj := inj s; nsp := nsp s; crashed := crashed s |}.
+  fibers := v; slots := slots s; cur := cur s; rc := rc s; inj := inj s; nsp := nsp s; crashed := crashed s; epoch := epoch s |}.
 Definition set_slots s v := {| now := now s; runq := runq s; sleepm := sleepm s; waitq := waitq s; locked := locked s;
-  fibers := fibers s; slots := v; cur := cur s; rc := rc s; inj := inj s; nsp := nsp s; crashed := crashed s |}.
+  fibers := fibers s; slots := v; cur := cur s; rc := rc s; inj := inj s; nsp := nsp s; crashed := crashed s; epoch := epoch s |}.
 Definition set_cur s v := {| now := now s; runq := runq s; sleepm := sleepm s; waitq := waitq s; locked := locked s;
-  fibers := fibers s; slots := slots s; cur := v; rc := rc s; inj := inj s; nsp := nsp s; crashed := crashed s |}.
+  fibers := fibers s; slots := slots s; cur := v; rc := rc s; inj := inj s; nsp := nsp s; crashed := crashed s; epoch := epoch s |}.
 Definition set_rc s v := {| now := now s; runq := runq s; sleepm := sleepm s; waitq := waitq s; locked := locked s;
-  fibers := fibers s; slots := slots s; cur := cur s; rc := v; inj := inj s; nsp := nsp s; crashed := crashed s |}.
+  fibers := fibers s; slots := slots s; cur := cur s; rc := v; inj := inj s; nsp := nsp s; crashed := crashed s; epoch := epoch s |}.
 Definition set_inj s v := {| now := now s; runq := runq s; sleepm := sleepm s; waitq := waitq s; locked := locked s;
-  fibers := fibers s; slots := slots s; cur := cur s; rc := rc s; inj := v; nsp := nsp s; crashed := crashed s |}.
+  fibers := fibers s; slots := slots s; cur := cur s; rc := rc s; inj := v; nsp := nsp s; crashed := crashed s; epoch := epoch s |}.
 Definition set_nsp s v := {| now := now s; runq := runq s; sleepm := sleepm s; waitq := waitq s; locked := locked s;
-  fibers := fibers s; slots := slots s; cur := cur s; rc := rc s; inj := inj s; nsp := v; crashed := crashed s |}.
+  fibers := fibers s; slots := slots s; cur := cur s; rc := rc s; inj := inj s; nsp := v; crashed := crashed s; epoch := epoch s |}.
+Definition set_epoch s v := {| now := now s; runq := runq s; sleepm := sleepm s; waitq := waitq s; locked := locked s;
+  fibers := fibers s; slots := slots s; cur := cur s; rc := rc s; inj := inj s; nsp := nsp s; crashed := crashed s; epoch := v |}.
 Definition set_crashed s v := {| now := now s; runq := runq s; sleepm := sleepm s; waitq := waitq s; locked := locked s;
-  fibers := fibers s; slots := slots s; cur := cur s; rc := rc s; inj := inj s; nsp := nsp s; crashed := v |}.
+  fibers := fibers s; slots := slots s; cur := cur s; rc := rc s; inj := inj s; nsp := nsp s; crashed := v; epoch := epoch s |}.
 
 Definition with_prog r v := {| prog := v; fs := fs r; alive := alive r; joiner := joiner r; pend := pend r;
   lastcas := lastcas r; lastto := lastto r |}.
@@ -235,6 +241,9 @@ Definition first_key (m : list (N * list fid)) : option N := match m with [] => 
 
 Definition fiber0 (p : list action) : fiber :=
   {| prog := p; fs := FSuspended; alive := true; joiner := None; pend := PNone; lastcas := false; lastto := false |}.
+
+(* the time a relative / absolute deadline is counted from *)
+Definition tbase (ab : bool) (s : st) : N := if ab then epoch s else now s.
 
 Section Machine.
 
@@ -341,17 +350,18 @@ Definition do_action (f : fid) (r : fiber) (a : action) (rest : list action) (s 
            (updf f (fun r' => with_lastcas r' (negb (v =? 0)%N)) s1, OWeakReq :: o)
   | ALogCas => (pop, [OCas f (lastcas r)])
   | AYield => (suspend f (set_runq pop (runq pop ++ [f])), [])
-  | ASleep d =>
+  | AEpoch => (set_epoch pop (now s), [])
+  | ASleep ab d =>
       (* Scheduler::Sleep(ns): if (ns <= _time) return; _sleep_list[ns].PushBack(current); Suspend() *)
-      let ns := (now s + d)%N in
+      let ns := (tbase ab s + d)%N in
       if (ns <=? now s)%N then (pop, [])
       else (suspend f (updf f (fun r' => with_pend r' (PSleep ns)) (set_sleepm pop (sm_push ns f (sleepm pop)))), [])
   | APark q => (suspend f (set_wq q (wq q pop ++ [f]) pop), [])
-  | ATimedPark q d =>
+  | ATimedPark q ab d =>
       (* _queue.PushBack(node); SleepPreemptive(now + d): ns += GetRandNumber(GetFaultSleepTime()); Sleep(ns); ... *)
       let s1 := set_wq q (wq q pop ++ [f]) pop in
       let '(v, s2, o) := draw (slpt cf) s1 in
-      let ns := (now s + d + v)%N in
+      let ns := (tbase ab s + d + v)%N in
       let s3 := updf f (fun r' => with_pend r' (PTimed q ns)) s2 in
       if (ns <=? now s)%N then (s3, o)
       else (suspend f (set_sleepm s3 (sm_push ns f (sleepm s3))), o)
@@ -496,13 +506,13 @@ End Machine.
 Definition init (t0 : N) (d : fid) (p : list action) (rc0 : nat) (inj0 : N) (n0 : nat) : st :=
   {| now := t0; runq := [d]; sleepm := []; waitq := []; locked := [];
      fibers := [(d, with_fs (fiber0 p) FWaiting)]; slots := []; cur := None; rc := rc0; inj := inj0; nsp := n0;
-     crashed := false |}.
+     crashed := false; epoch := 0%N |}.
 
 (* A quiescent point: the driver d is running, p is what it still has to do, nothing else exists. *)
 Definition quiescent (t : N) (d : fid) (p : list action) (rc0 : nat) (inj0 : N) (n0 : nat) : st :=
   {| now := t; runq := []; sleepm := []; waitq := []; locked := [];
      fibers := [(d, with_fs (fiber0 p) FRunning)]; slots := []; cur := Some d; rc := rc0; inj := inj0; nsp := n0;
-     crashed := false |}.
+     crashed := false; epoch := 0%N |}.
 
 (* ------------------------------------------------------------------ client-level operations (harness DSL)
    which calls into the fault layer one yaclib_std operation makes:
@@ -514,6 +524,7 @@ Definition quiescent (t : N) (d : fid) (p : list action) (rc0 : nat) (inj0 : N) 
      cv notify             = wrapped Impl::notify_*                                      *)
 Inductive cmd :=
 | CAtomic | CCasW | CYield | CSleep (d : N)
+| CEpoch | CSleepUntil (d : N) | CCvWaitUntil (c m : nat) (d : N) | CQWaitUntil (q : nat) (d : N)
 | CLock (m : nat) | CUnlock (m : nat)
 | CCvWait (c m : nat) | CCvWaitFor (c m : nat) (d : N) | CCvNotifyOne (c : nat) | CCvNotifyAll (c : nat)
 | CQWait (q : nat) | CQWaitFor (q : nat) (d : N) | CQNotifyOne (q : nat) | CQNotifyAll (q : nat)
@@ -525,15 +536,19 @@ Fixpoint expand1 (c : cmd) : list action :=
   | CAtomic => [AInject; AInject]
   | CCasW => [AWeak; AInject; AInject; ALogCas]
   | CYield => [AYield]
-  | CSleep d => [ASleep d]
+  | CSleep d => [ASleep false d]
+  | CEpoch => [AEpoch]
+  | CSleepUntil d => [ASleep true d]
+  | CCvWaitUntil c m d => [AInject; AInject; AUnlock m; ATimedPark (QC c) true d; ALock m; AInject; AInject; ALogTimed]
+  | CQWaitUntil q d => [ATimedPark (QR q) true d; ALogTimed]
   | CLock m => [AInject; ALock m; AInject]
   | CUnlock m => [AInject; AUnlock m; AInject]
   | CCvWait c m => [AInject; AInject; AUnlock m; APark (QC c); ALock m; AInject; AInject]
-  | CCvWaitFor c m d => [AInject; AInject; AUnlock m; ATimedPark (QC c) d; ALock m; AInject; AInject; ALogTimed]
+  | CCvWaitFor c m d => [AInject; AInject; AUnlock m; ATimedPark (QC c) false d; ALock m; AInject; AInject; ALogTimed]
   | CCvNotifyOne c => [AInject; ANotifyOne (QC c); AInject]
   | CCvNotifyAll c => [AInject; ANotifyAll (QC c); AInject]
   | CQWait q => [APark (QR q)]
-  | CQWaitFor q d => [ATimedPark (QR q) d; ALogTimed]
+  | CQWaitFor q d => [ATimedPark (QR q) false d; ALogTimed]
   | CQNotifyOne q => [ANotifyOne (QR q)]
   | CQNotifyAll q => [ANotifyAll (QR q)]
   | CSpawn sl body =>
